@@ -97,7 +97,7 @@ pub fn emit<W: Write>(c: &mut Cases<W>, cfg: &FileCfg, entries: &[(Vec<u8>, Vec<
 
 /// `prefab`: a file the library wrote by itself (a chunk file of the sorter) under the settings `cfg`
 /// holding `entries`: it goes through the same comparisons as a file written here
-pub fn emit_with<W: Write>(c: &mut Cases<W>, cfg: &FileCfg, entries: &[(Vec<u8>, Vec<u8>)], with_old: bool, prefab: Option<Vec<u8>>) {
+pub fn emit_with<W: Write>(c: &mut Cases<W>, cfg: &FileCfg, entries: &[(Vec<u8>, Vec<u8>)], with_old: bool, prefab: Option<WriteOutcome>) {
     c.begin("file");
     c.line(&format!("prop {}", c.prop.clone()));
     c.line(&cfg.line());
@@ -111,9 +111,9 @@ pub fn emit_with<W: Write>(c: &mut Cases<W>, cfg: &FileCfg, entries: &[(Vec<u8>,
     c.bump("entries.total", entries.len() as u64);
     // every fourth file is written through a sink that accepts only part of each buffer (any legal
     // io::Write must do: the writer may not rely on write() taking a whole block)
-    let outcome = if let Some(f) = prefab {
-        c.bump("prefab.sorter_chunk_files", 1);
-        WriteOutcome::File(f)
+    let outcome = if let Some(o) = prefab {
+        c.bump("prefab.outcome_of_another_route", 1);
+        o
     } else if c.count % 4 == 0 {
         let ctl = crate::c_io::Ctl::new();
         *ctl.rng.borrow_mut() = Some(Rng::new(c.count));
@@ -197,6 +197,15 @@ pub fn generate<W: Write>(c: &mut Cases<W>, rng: &mut Rng, thorough: bool, with_
     emit(c, &FileCfg { levels: 1, codec: CompressionType::Snappy, ..base.clone() }, &[(vec![], vec![])], with_old);
     emit(c, &FileCfg { levels: 255, ..base.clone() }, &[(vec![1], vec![2]), (vec![1, 0], vec![])], with_old);
     emit(c, &FileCfg { levels: 2, ..base.clone() }, &[], with_old);
+    // the file of a writer that finished without an insert, for every codec at several levels (its only
+    // block, the empty root, is a dozen bytes and may compress below any "minimum block" one could think of)
+    for codec in CODECS {
+        for level in [0u32, 1, 6, 9] {
+            for levels in [0u8, 1, 3] {
+                emit(c, &FileCfg { codec, level, levels, ..base.clone() }, &[], with_old && levels == 0);
+            }
+        }
+    }
     for codec in CODECS {
         for level in [0u32, 3, 11, 4000000000] {
             let cfg = FileCfg { codec, level: if codec == CompressionType::Zstd { level.min(19) } else { level }, ..base.clone() };
@@ -337,7 +346,7 @@ pub fn generate_sorter_chunks<W: Write>(c: &mut Cases<W>, rng: &mut Rng, thoroug
                     continue;
                 }
             };
-            emit_with(c, &cfg, &entries, false, Some(bytes));
+            emit_with(c, &cfg, &entries, false, Some(WriteOutcome::File(bytes)));
         }
     }
 }
@@ -415,6 +424,32 @@ pub fn generate_c18<W: Write>(c: &mut Cases<W>, rng: &mut Rng, thorough: bool) {
             emit(c, &cfg, &[(vec![0x60u8], vec![2u8; 3]), (big.clone(), vec![1u8; 3]), (vec![0x62u8], vec![])], false);
         }
     }
+    // entries streamed into a writer that already holds entries (Merger::write_into_stream_writer on a
+    // borrowed writer): the sequence the writer sees is the inserted entries followed by the streamed ones, and
+    // it must treat it like any other sequence - also after a stream that ended in an error of the merge function
+    {
+        let m = if thorough { 300 } else { 60 };
+        for i in 0..m {
+            let cfg = gen_cfg(rng, i % 2 == 0, false);
+            let es = bounded_entries(rng, &cfg, 60, if cfg.unclamped { 3000 } else { 12000 });
+            if es.len() < 3 {
+                continue;
+            }
+            let j = 1 + rng.below(es.len() as u64 - 1) as usize;
+            // streamed = a sorted stretch; pre = what the writer holds before: higher keys (i % 3 == 0), the
+            // same stretch again (1), or lower keys (2: the sorted control)
+            let (pre, streamed): (Vec<_>, Vec<_>) = match i % 3 {
+                0 => (es[j..].to_vec(), es[..j].to_vec()),
+                1 => (es[..j].to_vec(), es[j - 1..].to_vec()),
+                _ => (es[..j].to_vec(), es[j..].to_vec()),
+            };
+            let fail_stream_first = i % 4 == 3;
+            let seq: Vec<(Vec<u8>, Vec<u8>)> = pre.iter().cloned().chain(streamed.iter().cloned()).collect();
+            let outcome = stream_into_prefilled(&cfg, &pre, &streamed, fail_stream_first);
+            c.bump("c18.streamed_into_prefilled_writer", 1);
+            emit_with(c, &cfg, &seq, false, Some(outcome));
+        }
+    }
     let n = if thorough { 6000 } else { 400 };
     for i in 0..n {
         let cfg = gen_cfg(rng, i % 2 == 0, false);
@@ -443,6 +478,58 @@ pub fn generate_c18<W: Write>(c: &mut Cases<W>, rng: &mut Rng, thorough: bool) {
             c.bump(&format!("c18.kind{}", kinds), 1);
         }
         emit(c, &cfg, &es, false);
+    }
+}
+
+/// merge function of the streaming route: counts its calls, returns the first value, fails its first call once
+struct CountingFirst { calls: std::cell::Cell<usize>, fail_first: std::cell::Cell<bool> }
+impl grenad::MergeFunction for &CountingFirst {
+    type Error = String;
+    fn merge<'a>(&self, _key: &[u8], values: &[std::borrow::Cow<'a, [u8]>]) -> Result<std::borrow::Cow<'a, [u8]>, String> {
+        if self.fail_first.get() {
+            self.fail_first.set(false);
+            return Err("merge failure".to_string());
+        }
+        self.calls.set(self.calls.get() + 1);
+        Ok(values[0].clone())
+    }
+}
+
+/// `pre` inserted into a writer, then `streamed` (strictly ascending) streamed into the same writer from a
+/// one-source merger; with `fail_first` a first stream is attempted whose merge function fails at once (nothing
+/// is streamed), then the real one.  The outcome is what the plain insert sequence pre ++ streamed would give.
+fn stream_into_prefilled(cfg: &FileCfg, pre: &[(Vec<u8>, Vec<u8>)], streamed: &[(Vec<u8>, Vec<u8>)], fail_first: bool) -> WriteOutcome {
+    let src = {
+        let mut w = grenad::Writer::memory();
+        for (k, v) in streamed {
+            w.insert(k, v).unwrap();
+        }
+        w.into_inner().unwrap()
+    };
+    let mut w = cfg.builder().build(Vec::new());
+    for (i, (k, v)) in pre.iter().enumerate() {
+        match catch(|| w.insert(k, v)) {
+            Ok(Ok(())) => {}
+            Ok(Err(e)) => return WriteOutcome::Err(io_class(&e)),
+            Err(_) => return WriteOutcome::PanicInsert(i),
+        }
+    }
+    let mf = CountingFirst { calls: std::cell::Cell::new(0), fail_first: std::cell::Cell::new(fail_first) };
+    let rounds = if fail_first { 2 } else { 1 };
+    for round in 0..rounds {
+        let cur = Reader::new(Cursor::new(src.clone())).unwrap().into_cursor().unwrap();
+        let merger = grenad::Merger::builder(&mf).add(cur).build();
+        match catch(|| merger.write_into_stream_writer(&mut w)) {
+            Ok(Ok(())) => {}
+            Ok(Err(grenad::Error::Merge(_))) if fail_first && round == 0 => {}
+            Ok(Err(e)) => return WriteOutcome::Err(err_class(&e)),
+            Err(_) => return WriteOutcome::PanicInsert(pre.len() + mf.calls.get().saturating_sub(1)),
+        }
+    }
+    match catch(move || w.into_inner()) {
+        Ok(Ok(bytes)) => WriteOutcome::File(bytes),
+        Ok(Err(e)) => WriteOutcome::Err(io_class(&e)),
+        Err(_) => WriteOutcome::PanicFinish,
     }
 }
 
